@@ -3,6 +3,7 @@
 package gi
 
 import (
+	"fmt"
 	"strings"
 
 	"github.com/ohler55/slip"
@@ -54,10 +55,10 @@ func (f *StringRepeat) Call(s *slip.Scope, args slip.List, depth int) slip.Objec
 	} else {
 		slip.TypePanic(s, depth, "string", args[0], "string")
 	}
-	if num, ok := args[1].(slip.Fixnum); ok {
+	if num, ok := args[1].(slip.Fixnum); ok && 0 <= num && num <= slip.ArrayMaxDimension {
 		count = int(num)
 	} else {
-		slip.TypePanic(s, depth, "count", args[1], "fixnum")
+		slip.TypePanic(s, depth, "count", args[1], fmt.Sprintf("non-negative fixnum not more than %d", slip.ArrayMaxDimension))
 	}
 	return slip.String(strings.Repeat(str, count))
 }
